@@ -344,9 +344,10 @@ def diff_fs(actual, expected, optional):
     return None
 
 
-def visible_sorted(sc):
-    """Indices of messages older than the start time, ascending mtime; flag = mtimes tie."""
-    vis = [i for i, m in enumerate(sc["msgs"]) if T0 - m["age"] < T0]
+def visible_sorted(sc, off=0):
+    """Indices of messages older than the start time (T0 + off: the clock may have moved on before the server started), ascending mtime;
+    flag = mtimes tie."""
+    vis = [i for i, m in enumerate(sc["msgs"]) if T0 - m["age"] < T0 + off]
     vis.sort(key=lambda i: (-sc["msgs"][i]["age"], i))
     ages = [sc["msgs"][i]["age"] for i in vis]
     return vis, len(set(ages)) != len(ages)
@@ -384,6 +385,8 @@ class Runner:
         self.rec = os.path.join(self.h.dir, "rec")
         self.pop3d = tree.path("qmail-pop3d")
         self.popup = tree.path("qmail-popup")
+        self.clockf = os.path.join(self.h.dir, "clock")           # 8-byte offset added to the pinned time() of a popup session
+        open(self.clockf, "wb").write(b"\0" * 8)
 
     def env(self, uid, **extra):
         e = self.h.env(role="pop", uid=uid, trace=False, VSHIM_FIXTIME=T0, **extra)
@@ -394,7 +397,7 @@ class Runner:
     def transaction(self, s, sc, steps, end, cls, start_fs):
         """Drive the pop3d part of a session (greeting included). Returns (error|None, model)."""
         md = self.md
-        vis, ties = visible_sorted(sc)
+        vis, ties = visible_sorted(sc, getattr(self, "cur_tick", 0))
         g = s.read_line()
         if g is None:
             raise Inconclusive()
@@ -549,12 +552,16 @@ class Runner:
         build_maildir(self.md, sc)
         start = snapshot(self.md)
         self.content_classes(sc, cls)
-        uid0 = bool(sc.get("uid0"))
-        s = sandbox.Session([self.pop3d, self.md], self.env(0 if uid0 else 4242))
+        uid0 = sc.get("uid0") or False
+        self.cur_tick = 0
+        # uid0 == "eff": real uid 0 with another effective uid (privileges dropped with seteuid() only) - still "run as root"
+        s = sandbox.Session([self.pop3d, self.md], self.env(0 if uid0 else 4242, **({"VSHIM_EUID": "54321"} if uid0 == "eff" else {})))
         model = None
         try:
             if uid0:
                 cls.append("uid0")
+                if uid0 == "eff":
+                    cls.append("uid0_effective_uid_dropped")
                 for st_ in sc["steps"]:
                     if st_["op"] == "cmd" and st_["verb"] != "UNKNOWN":
                         a = self.resolve_arg(st_.get("arg", ""), 1)
@@ -632,7 +639,12 @@ class Runner:
         senv = sandbox.standin_env(self.rec, read="3", exit=1 if ck == "exit1" else 0,
                                    kill=int(ck[4:]) if ck.startswith("kill") else None, exec_=(ck == "exec"))
         sub = [TOOLS["standin"], self.pop3d, self.md]
-        s = sandbox.Session([self.popup, host] + sub, self.env(4242, **senv))
+        # the clock moves on between the greeting and the commands (1 s, 7 s or not at all, fixed by the scenario): the challenge handed to the
+        # checker is the one the client was greeted with, not one made up later (added after seeded change C19-L)
+        tick = sc.get("tick", [0, 1, 7][len(sc["steps"]) % 3])
+        self.cur_tick = tick
+        open(self.clockf, "wb").write(b"\0" * 8)
+        s = sandbox.Session([self.popup, host] + sub, self.env(4242, VSHIM_CLOCK=self.clockf, **senv))
         ran = False
         model = None
         slack = 0
@@ -647,6 +659,10 @@ class Runner:
                 stats.case(scenario=sc, nontrivial=False, classes=cls)
                 return err
             banner = mm.group(1)
+            if tick:
+                with open(self.clockf, "r+b") as cf:
+                    cf.write(int(tick).to_bytes(8, "little"))
+                cls.append("clock_moves_after_greeting")
             user = None
             just_user = False
             over = False
@@ -869,7 +885,7 @@ END = st.sampled_from(["quit", "quit", "quit", "quit", "eof", "kill", "partial"]
 @st.composite
 def pop3d_scenario(draw):
     msgs, tmp = draw(population())
-    return {"kind": "pop3d", "msgs": msgs, "tmp": tmp, "uid0": draw(st.sampled_from([False] * 24 + [True])),
+    return {"kind": "pop3d", "msgs": msgs, "tmp": tmp, "uid0": draw(st.sampled_from([False] * 24 + [True, "eff"])),
             "steps": draw(st.lists(step, max_size=20)), "end": draw(END), "qcase": draw(CASE), "qeol": draw(EOL)}
 
 
@@ -939,6 +955,7 @@ def fixed_inputs():
     out.append(dict(base, msgs=three, steps=[c("DELE", "v0"), c("DELE", "v2")], end="partial"))
     out.append(dict(base, msgs=three, steps=[c("DELE", "v0"), {"op": "rm", "i": 1}, c("RETR", "v1"), c("LIST"), c("RETR", "v2")], end="quit"))
     out.append(dict(base, msgs=three, steps=[c("DELE", "v0"), c("DELE", "1")], end="quit", uid0=True))
+    out.append(dict(base, msgs=three, steps=[c("DELE", "v0"), c("DELE", "1")], end="quit", uid0="eff"))
     out.append(dict(base, msgs=[], steps=[c("STAT"), c("LIST"), c("DELE", "1"), c("RETR", "1"), c("LIST", "1")], end="quit"))
     j = vlib.jsonable
     pb = {"kind": "popup", "host": "pop.example.org", "msgs": three, "tmp": [], "qcase": "upper", "qeol": "\r\n", "end": "quit",
